@@ -83,9 +83,9 @@ MUTANTS = [
     M("benign-b32-split-repeat", U, "BASE32STR_128bits = b'(%s{25}%s)' % (base32.BASE32CHAR, base32.BASE32CHAR_3bits)",
       "BASE32STR_128bits = b'(%s{20}%s{5}%s)' % (base32.BASE32CHAR, base32.BASE32CHAR, base32.BASE32CHAR_3bits)", None),
     # ---- C15.5 numeric fields canonical: a new kind with a version number inherits NUMBER's leading zeros
-    M("mdmfv-version-field", U, "BASE_STRING=b'URI:MDMF-Verifier:'\n    STRING_RE=re.compile(b'^'+BASE_STRING+BASE32STR_128bits+b':'+BASE32STR_256bits+b'(:|$)')",
-      "BASE_STRING=b'URI:MDMF-Verifier:'\n    STRING_RE=re.compile(b'^'+BASE_STRING+BASE32STR_128bits+b':'+BASE32STR_256bits+b':'+NUMBER+b'$')",
-      "C15.5", edits=[(U, MDMFV_OLD, MDMFV_NEW)]),
+    M("number-leading-zeros-again", U, "NUMBER=b'(0|[1-9][0-9]*)'", "NUMBER=b'([0-9]+)'", "C15.5",
+      note="re-introduces the defect repaired by the fix: commit"),
+    M("number-digit-class", U, "NUMBER=b'(0|[1-9][0-9]*)'", "NUMBER=b'([0-9][0-9]*)'", "C15.5"),
     M("benign-number-canonical", U, "NUMBER=b'([0-9]+)'", "NUMBER=b'(0|[1-9][0-9]*)'", None),
     # ---- C15.6 dispatch
     M("dispatch-chk-literal-short", U, "        if s.startswith(b'URI:CHK:'):\n            return CHKFileURI",
